@@ -9,6 +9,8 @@ for d in sorted(glob.glob(V + "/seeded/*/meta.json")):
     if len(needs) > 230:
         needs = needs[:227] + "..."
     st = m.get("status_note") or ("caught (exit 1)" if m["check_quick_exit"] == 1 else "MISSED (exit %s)" % m["check_quick_exit"])
+    if m.get("first_check_quick_exit") not in (None, m["check_quick_exit"]):
+        st += " after strengthening (first version: exit %s)" % m["first_check_quick_exit"]
     rows.append(f"| {m['seed_id']} | {m['property']} | {needs} | {st} |")
 status = open(V + "/tools/design_status.md").read().replace("SEED_TABLE", "\n".join(rows))
 d = open(V + "/DESIGN.md").read()
